@@ -239,6 +239,12 @@ theorem lexNumber_lay (x : List Nat) {d : Nat} (hd : Lay d) (r : List Nat) :
           · exact hN
     · rw [lexNumber_first _ hc, lexNumber_first _ hc]; exact hN
 
+/-- `1.` in front of a blank: the float `1.`, as in front of a line end; `1e` in front of `#`: the integer `1` -/
+example : lexNumber ([49, 46] ++ 32 :: [120]) = .ok (.float [49, 46], 2) := by
+  rw [lexNumber_lay [49, 46] (by decide) [120]]; rfl
+example : lexNumber ([49, 101] ++ 35 :: [120]) = .ok (.int 1, 1) := by
+  rw [lexNumber_lay [49, 101] (by decide) [120]]; rfl
+
 theorem lexNumber_lay_local (x : List Nat) {d d' : Nat} (hd : Lay d) (hd' : Lay d') (r r' : List Nat) :
     lexNumber (x ++ d :: r) = lexNumber (x ++ d' :: r') := by
   rw [lexNumber_lay x hd r, lexNumber_lay x hd' r']
@@ -739,5 +745,179 @@ theorem eatIndent_stops_lay {l : List Nat} {k pos s t : Nat} {o : EatOut} (h : e
     first
       | exact ⟨i + 1, c, rest, by omega, by simpa using h2, h3⟩
       | exact ⟨i + 2, c, rest, by omega, by simpa using h2, h3⟩
+
+/-- `handle_indentations` that stops strictly inside `y` -/
+theorem handleIndentations_prefix_local {cfg : Cfg} (hf : cfg.fullLexer = false) (st : LexState) (y t1 t2 : List Nat)
+    {toks : List RelTok} {p : Nat} {st1 : LexState}
+    (h : handleIndentations cfg st (y ++ t1) = .ok (toks, p, st1)) (hp : p < y.length) :
+    handleIndentations cfg st (y ++ t2) = .ok (toks, p, st1) := by
+  obtain ⟨o, ho, rfl, _⟩ := handleIndentations_pos h
+  rw [hf] at ho
+  have ho' := eatIndent_prefix_local t1 t2 y.length y (Nat.le_refl _) 0 0 0 o ho (by omega)
+  unfold handleIndentations at h ⊢
+  rw [hf, ho] at h
+  rw [hf, ho']
+  exact h
+
+theorem consumeNormal_cons_pos {cfg : Cfg} (hs : cfg.up.Sane) {st : LexState} {c : Nat} {cs : List Nat} {o : StepOut}
+    (h : consumeNormal cfg st (c :: cs) = .ok o) : 1 ≤ o.consumed := by
+  simp only [consumeNormal] at h
+  split at h
+  · rename_i hc; exact (ofSub_ok (lexIdentifier_ok cfg.up hs c cs hc) h).pos
+  · exact (consumeCharacter_ok h).pos
+
+/-- `consume_normal` that ends in front of a layout character -/
+theorem consumeNormal_lay_local {cfg : Cfg} (hup : UpOk cfg.up) (hl : UpLay cfg.up) (hf : cfg.fullLexer = false)
+    (st : LexState) (y : List Nat) {d d' : Nat} (hd : Lay d) (hd' : Lay d') (r r' : List Nat) {o : StepOut}
+    (h : consumeNormal cfg st (y ++ d :: r) = .ok o) (hc : o.consumed ≤ y.length)
+    (hcr : o.consumed = y.length → y.getLast? = some 13 → d' ≠ 10)
+    (hbl : o.consumed = y.length → (∀ x ∈ y, isBlank x = true) → isBlank d' = false)
+    (hcm : o.consumed = y.length → y.head? = some 35 → isLineBreak d' = true) :
+    consumeNormal cfg st (y ++ d' :: r') = .ok o := by
+  cases y with
+  | nil =>
+    have := consumeNormal_cons_pos hup.sane h
+    simp at hc; omega
+  | cons c y =>
+    simp only [List.cons_append, consumeNormal] at h ⊢
+    by_cases hid : isIdStart cfg.up c = true
+    · simp only [hid, ↓reduceIte] at h ⊢
+      obtain ⟨tok, n, hs, rfl⟩ := ofSub_inv h
+      rw [lexIdentifier_lay_local hl c y hd hd' r r' hs (by simp [one] at hc; omega)]
+      rfl
+    · simp only [hid, Bool.false_eq_true, ↓reduceIte] at h ⊢
+      simp only [List.length_cons] at hc hcr hbl hcm
+      exact consumeCharacter_lay_local hf st c y hd hd' r r' h (by omega)
+        (fun e => hcr (by omega)) (fun e => hbl (by omega)) (fun e hc35 => hcm (by omega) (by simp [hc35]))
+
+/-- what a step that ends exactly in front of the layout character needs of the character put there instead -/
+structure EndOk (atBol : Bool) (y : List Nat) (d' : Nat) : Prop where
+  /-- a CR at the end of `y` would take an LF along -/
+  cr : y.getLast? = some 13 → d' ≠ 10
+  /-- a run of blanks would take a further blank along -/
+  blank : ∀ c, y.getLast? = some c → isBlank c = true → isBlank d' = false
+  /-- a comment takes everything up to the line end -/
+  comment : atBol = false → y.head? = some 35 → isLineBreak d' = true
+
+theorem getLast?_drop {y : List Nat} {p : Nat} (hp : p < y.length) : (y.drop p).getLast? = y.getLast? := by
+  rw [List.getLast?_drop]; simp; omega
+
+theorem allBlank_getLast {y : List Nat} (hne : y ≠ []) (h : ∀ x ∈ y, isBlank x = true) :
+    ∃ c, y.getLast? = some c ∧ isBlank c = true := by
+  refine ⟨y.getLast hne, List.getLast?_eq_some_getLast hne, h _ (List.getLast_mem hne)⟩
+
+/-- **L1 for layout characters**: a step that ends in front of a layout character `d` gives the same result with any
+    layout character `d'` there and anything behind it — unconditionally when it ends before the last character of `y`,
+    under `EndOk` when it ends exactly in front of `d` -/
+theorem step_lay_local {cfg : Cfg} (hup : UpOk cfg.up) (hl : UpLay cfg.up) (hf : cfg.fullLexer = false)
+    {st : LexState} {y : List Nat} {d : Nat} (hd : Lay d) {r : List Nat} {o : StepOut}
+    (h : step cfg st (y ++ d :: r) = .ok o) (hc : o.consumed ≤ y.length) {d' : Nat} (hd' : Lay d') (r' : List Nat)
+    (hside : o.consumed = y.length → EndOk st.atBol y d') :
+    step cfg st (y ++ d' :: r') = .ok o := by
+  unfold step at h ⊢
+  by_cases hb : st.atBol = true
+  · simp only [hb, ↓reduceIte] at h ⊢
+    cases hh : handleIndentations cfg st (y ++ d :: r) with
+    | error e => simp [hh] at h
+    | ok q =>
+      obtain ⟨toks1, p, st1⟩ := q
+      simp only [hh] at h
+      cases hn : consumeNormal cfg st1 ((y ++ d :: r).drop p) with
+      | error e => simp [hn] at h
+      | ok o' =>
+        simp only [hn, Except.ok.injEq] at h
+        subst h
+        simp only [] at hc hside
+        obtain ⟨eo, heo, hpe, hbol, _⟩ := handleIndentations_pos hh
+        rw [hf] at heo
+        -- the indentation ends strictly inside `y`
+        have hple : p ≤ y.length := by omega
+        rw [drop_brk hple] at hn
+        have hpos : 1 ≤ o'.consumed := by
+          cases hy : y.drop p with
+          | nil => rw [hy] at hn; exact consumeNormal_cons_pos hup.sane hn
+          | cons a t => rw [hy] at hn; exact consumeNormal_cons_pos hup.sane hn
+        have hp : p < y.length := by omega
+        rw [handleIndentations_prefix_local hf st y (d :: r) (d' :: r') hh hp]
+        simp only []
+        rw [drop_brk hple]
+        -- the first character `consume_normal` sees is not a blank, `#` or line break
+        have hnb : eo.atBol = false := by
+          cases hE : eo.atBol with
+          | false => rfl
+          | true =>
+            exfalso
+            obtain ⟨i, hi, hcase⟩ := eatIndent_stops heo
+            rcases hcase with ⟨hnil, _⟩ | ⟨_, _, _, _, hfalse⟩
+            · have := congrArg List.length hnil
+              simp at this; omega
+            · rw [hE] at hfalse; cases hfalse
+        obtain ⟨i, c0, rest0, hi, hdrop, hc0⟩ := eatIndent_stops_lay heo hnb
+        have hip : i = p := by omega
+        subst hip
+        rw [drop_brk hple] at hdrop
+        have hhead : (y.drop i).head? = some c0 := by
+          cases hy : y.drop i with
+          | nil => have := congrArg List.length hy; simp at this; omega
+          | cons a t => rw [hy] at hdrop; simp at hdrop; simp [hdrop.1]
+        have hne : y.drop i ≠ [] := by intro h0; rw [h0] at hhead; cases hhead
+        rw [consumeNormal_lay_local hup hl hf st1 (y.drop i) hd hd' r r' hn (by simp; omega)
+          (by
+            intro e h13
+            have := (hside (by simp at e; omega)).cr
+            rw [getLast?_drop hp] at h13
+            exact this h13)
+          (by
+            intro e hall
+            obtain ⟨c, hc1, hc2⟩ := allBlank_getLast hne hall
+            rw [getLast?_drop hp] at hc1
+            exact (hside (by simp at e; omega)).blank c hc1 hc2)
+          (by
+            intro e h35
+            rw [hhead] at h35
+            have : c0 = 35 := by simpa using h35
+            have := hc0 (by rw [this]; decide)
+            omega)]
+  · have hb' : st.atBol = false := by simpa using hb
+    simp only [hb, Bool.false_eq_true, ↓reduceIte] at h ⊢
+    refine consumeNormal_lay_local hup hl hf st y hd hd' r r' h hc (fun e => (hside e).cr) ?_
+      (fun e => (hside e).comment hb')
+    intro e hall
+    have hne : y ≠ [] := by
+      intro h0; subst h0
+      have := consumeNormal_cons_pos hup.sane h
+      simp at e; omega
+    obtain ⟨c, hc1, hc2⟩ := allBlank_getLast hne hall
+    exact (hside e).blank c hc1 hc2
+
+/-! ## non-vacuity, and the side conditions are needed -/
+
+/-- the name `x` of `x␠=1`, seen from the start of the line (`y = x`, `d = ␠`): the same step on `x#c`, `x\⏎`, `x⏎y` -/
+example : step localCfg .init ([120] ++ 35 :: [99]) = .ok ⟨[⟨.name [120], 0, 1⟩], 1, ⟨false, 0, [⟨0, 0⟩]⟩, false⟩ :=
+  step_lay_local localUp_ok localUp_lay rfl (y := [120]) (d := 32) (by decide) (r := [61, 49]) (by rfl) (by decide)
+    (d' := 35) (by decide) [99] (fun _ => ⟨by decide, by decide, by decide⟩)
+
+/-- the float `1.` in front of a tab, then in front of a backslash -/
+example : step localCfg ⟨false, 0, [⟨0, 0⟩]⟩ ([49, 46] ++ 92 :: [10, 50]) =
+    .ok ⟨[⟨.float [49, 46], 0, 2⟩], 2, ⟨false, 0, [⟨0, 0⟩]⟩, false⟩ :=
+  step_lay_local localUp_ok localUp_lay rfl (y := [49, 46]) (d := 9) (by decide) (r := []) (by rfl) (by decide)
+    (d' := 92) (by decide) [10, 50] (fun _ => ⟨by decide, by decide, by decide⟩)
+
+/-- a step that ends before the last character of `y` needs no side condition: the `<` of `<␠␠` (then `<␠#`) -/
+example : step localCfg ⟨false, 0, [⟨0, 0⟩]⟩ ([60, 32] ++ 35 :: []) =
+    .ok ⟨[⟨.op .Less, 0, 1⟩], 1, ⟨false, 0, [⟨0, 0⟩]⟩, false⟩ :=
+  step_lay_local localUp_ok localUp_lay rfl (y := [60, 32]) (d := 32) (by decide) (r := []) (by rfl) (by decide)
+    (d' := 35) (by decide) [] (fun h => by simp at h)
+
+/-- **The three side conditions of `EndOk` are needed**: CR + LF inside brackets is one line end (the step takes two
+    characters instead of one), blank + blank is one run of blanks, comment + blank is a longer comment. -/
+theorem lay_side_conditions_needed :
+    (step localCfg ⟨false, 1, [⟨0, 0⟩]⟩ ([13] ++ 32 :: []) = .ok ⟨[], 1, ⟨false, 1, [⟨0, 0⟩]⟩, false⟩ ∧
+     step localCfg ⟨false, 1, [⟨0, 0⟩]⟩ ([13] ++ 10 :: []) = .ok ⟨[], 2, ⟨false, 1, [⟨0, 0⟩]⟩, false⟩) ∧
+    (step localCfg ⟨false, 0, [⟨0, 0⟩]⟩ ([32] ++ 10 :: []) = .ok ⟨[], 1, ⟨false, 0, [⟨0, 0⟩]⟩, false⟩ ∧
+     step localCfg ⟨false, 0, [⟨0, 0⟩]⟩ ([32] ++ 9 :: []) = .ok ⟨[], 2, ⟨false, 0, [⟨0, 0⟩]⟩, false⟩) ∧
+    (step localCfg ⟨false, 0, [⟨0, 0⟩]⟩ ([35, 99] ++ 10 :: []) = .ok ⟨[], 2, ⟨false, 0, [⟨0, 0⟩]⟩, false⟩ ∧
+     step localCfg ⟨false, 0, [⟨0, 0⟩]⟩ ([35, 99] ++ 32 :: []) = .ok ⟨[], 3, ⟨false, 0, [⟨0, 0⟩]⟩, false⟩) :=
+  ⟨⟨rfl, rfl⟩, ⟨rfl, rfl⟩, ⟨rfl, rfl⟩⟩
 
 end PV.C08
